@@ -52,6 +52,8 @@ import (
 	"github.com/kubewharf/kubegateway/pkg/clusters/features"
 	"github.com/kubewharf/kubegateway/pkg/gateway/controllers"
 	"github.com/kubewharf/kubegateway/pkg/gateway/endpoints/filters"
+	gwflowcontrol "github.com/kubewharf/kubegateway/pkg/flowcontrols/flowcontrol"
+	"github.com/kubewharf/kubegateway/pkg/flowcontrols/remote"
 	proxyoptions "github.com/kubewharf/kubegateway/pkg/gateway/proxy/options"
 	"github.com/kubewharf/kubegateway/pkg/syncqueue"
 	gwrequest "github.com/kubewharf/kubegateway/pkg/gateway/endpoints/request"
@@ -555,6 +557,7 @@ type viewObs struct {
 	Stopped bool       `json:"stopped"`
 	EPs     []epObs    `json:"eps"`
 	FCs     []fcObs    `json:"fcs"`
+	Enf     []fcObs    `json:"enf"` // per schema name: what the limiter ENFORCES (not what it reports)
 	Gates   []bool     `json:"gates"`
 	Probes  []probeObs `json:"probes"`
 	Names   []B        `json:"names"`
@@ -608,8 +611,12 @@ func (g *gateway) view(name string, schemas []B, hosts []B) viewObs {
 		v.EPs = append(v.EPs, epObs{E: endpointIndex(e), Disabled: info.IstDisabled(), Ready: info.IsReady()})
 	}
 	sort.Slice(v.EPs, func(i, j int) bool { return v.EPs[i].E < v.EPs[j].E })
+	v.Enf = []fcObs{}
 	for _, s := range schemas {
-		v.FCs = append(v.FCs, parseFC(ci.GetFlowSchema(s.S()).String()))
+		fc := ci.GetFlowSchema(s.S())
+		v.FCs = append(v.FCs, parseFC(fc.String()))
+		k, a, b := gwflowcontrol.VerifEnforced(remote.VerifC11Inner(fc))
+		v.Enf = append(v.Enf, fcObs{Name: s, Kind: k, A: int(a), Bb: int(b)})
 	}
 	for _, k := range gateKeys {
 		v.Gates = append(v.Gates, ci.FeatureEnabled(featuregate.Feature(k)))
